@@ -2,6 +2,7 @@ package checks
 
 import (
 	"os"
+	"runtime"
 
 	"bytes"
 	"fmt"
@@ -35,7 +36,7 @@ func init() {
 		Level: "exploration",
 		Rule: "one case = one simulated validation ceremony (sometimes two consecutive ones) over 3-6 replicas that each run the real ValidationCeremony for their own identity, plus identities nobody operates; " +
 			"replicas differ in map seed, time zone, clock skew, transaction and key arrival (lossy gossip), restarts between and inside ceremony phases, absence during the ceremony (catch-up from blocks only), and in whether they evaluate the epoch first at proposal, at validation or at insertion; " +
-			"sometimes a competing block at the finishing height is validated first; non-trivial = the validation did not fail, at least two users answered and at least one replica was restarted, absent or pre-validated; distinct by history fingerprint",
+			"sometimes a competing block at the finishing height is validated first, sometimes a participant that does not run the reference client sends an evidence transaction with a payload of its own making (13 kinds: empty, truncated, inconsistent roaring headers, random bytes, a few kilobytes naming 2^26 candidates; crashes, disagreement and - for those runs - allocation of the finishing round are judged, the majority rule only for epochs with well-formed evidence); non-trivial = the validation did not fail, at least two users answered and at least one replica was restarted, absent or pre-validated; distinct by history fingerprint",
 		Real:         realCeremony,
 		Stub:         stubCeremony,
 		Assumptions:  []string{"'missed the session' is taken in its narrowest on-chain sense: no short-answers transaction of the identity in the epoch's blocks; 'lacked its required flips' = fewer flips than required at the lottery block", "a validation in which nobody is validated keeps all identities as they were (the protocol's fail-safe): the per-identity rules are checked for validations that did not fail", "each node's own evidence bitmap depends on its own clock by design; only results computed from on-chain data are compared"},
@@ -459,12 +460,26 @@ func runCeremony(r *vfw.Run, forC16 bool) {
 		return true
 	}
 	maxRounds := 260
+	craftedN, craftedBytes, craftedKind := 0, 0, "" // crafted evidence transactions submitted so far (craftedBytes = largest payload + 1)
 	for round := 0; round < maxRounds && epochsDone < wantEpochs; round++ {
 		live := up()
 		if len(live) == 0 {
 			break
 		}
+		var m0 runtime.MemStats
+		if craftedBytes > 0 {
+			runtime.ReadMemStats(&m0)
+		}
 		rr := l.Round(live)
+		if craftedBytes > 0 {
+			// everything a crafted evidence payload can make the node allocate happens while the epoch is evaluated, i.e.
+			// while a block at the finishing height is built or validated (one task runs at a time: the delta is this round's)
+			var m1 runtime.MemStats
+			runtime.ReadMemStats(&m1)
+			if d := m1.TotalAlloc - m0.TotalAlloc; d > 192<<20 {
+				r.Violate("C17:allocation-out-of-proportion-to-evidence-payload", "building and validating the block at h=%d allocated more than 192 MiB; the epoch's blocks carry %d crafted evidence transaction(s), the largest payload has %d bytes (%s)", rr.Height, craftedN, craftedBytes-1, craftedKind)
+			}
+		}
 		if !l.Usable(rr) {
 			break
 		}
@@ -513,6 +528,24 @@ func runCeremony(r *vfw.Run, forC16 bool) {
 						r.Fault("ceremony_tx_reaches_one_replica_only")
 						break
 					}
+				}
+			}
+		}
+		// a participant who does not run the reference client sends its evidence transaction with a payload of its own
+		// making (the transaction validator does not look at the payload; it is read when the epoch is evaluated)
+		if live[0].App.State.ValidationPeriod() == state.LongSessionPeriod && r.Choose("cer.hostileevidence", 4) == 0 {
+			if el := s.Eligible(live); len(el) > 0 {
+				z := el[r.Choose("cer.hostileevidence.via", len(el))]
+				id := s.Ids[r.Choose("cer.hostileevidence.who", len(s.Ids))]
+				payload, kind := s.HostileEvidencePayload()
+				if tx := s.EvidenceTxOf(z, id, payload); tx != nil && s.Submit(z, tx) == nil {
+					s.CraftedEvidence[string(payload)] = true
+					craftedN++
+					if len(payload) >= craftedBytes {
+						craftedBytes, craftedKind = len(payload)+1, kind
+					}
+					r.Fault("evidence_tx_with_crafted_payload")
+					r.Probe("crafted_evidence:" + kind)
 				}
 			}
 		}
@@ -698,8 +731,18 @@ func c17Rules(r *vfw.Run, s *scen.Scn, n *simnode.Node, f *cerEpochFacts) {
 			senders = append(senders, snd)
 		}
 		sort.Slice(senders, func(i, j int) bool { return bytes.Compare(senders[i][:], senders[j][:]) < 0 })
+		crafted := false
 		for _, snd := range senders {
-			if !isCand[snd] {
+			if s.CraftedEvidence[string(f.evidence[snd])] {
+				// what a malformed bitmap contributes is not specified anywhere: the majority rule is judged for epochs whose
+				// evidence is well-formed (crashes and disagreement between replicas are judged regardless)
+				r.Probe("evidence_majority_not_judged(crafted_payload_on_chain)")
+				crafted = true
+				break
+			}
+		}
+		for _, snd := range senders {
+			if !isCand[snd] || crafted {
 				continue
 			}
 			bm := common.NewBitmap(uint32(len(f.candidates)))
@@ -710,7 +753,7 @@ func c17Rules(r *vfw.Run, s *scen.Scn, n *simnode.Node, f *cerEpochFacts) {
 			}
 		}
 		for i, c := range f.candidates {
-			if 2*score[i] <= nmaps {
+			if !crafted && 2*score[i] <= nmaps {
 				notApproved[c] = true
 			}
 		}
